@@ -55,6 +55,16 @@ try:
 except ImportError:
     pass
 try:
+    import gen_dtstart
+    MODULES['DtStart'] = gen_dtstart.generate
+except ImportError:
+    pass
+try:
+    import gen_stream
+    MODULES['Stream'] = gen_stream.generate
+except ImportError:
+    pass
+try:
     import gen_keys
     MODULES['Keys'] = gen_keys.generate
 except ImportError:
